@@ -28,10 +28,10 @@ from vlib.common import ToolError, build_wild, log, run_wild, save_replay, scrat
 
 PROP = "C16"
 META = {
-    "ready": False,
+    "ready": True,
     "level": "model_checking",
     "technique": "TLA+ specification of the expression language (declarative C-precedence parse, per-level parser, 64-bit evaluation on byte-limb words) enumerated by TLC; every enumerated expression replayed as ASSERT((e)==v) through the real wild binary and through GNU ld (the property's reference)",
-    "level_text": "TLC enumerates all well-formed expressions up to the configured bounds (quick: all 1-operator expressions over 13 boundary literals x 18 operators, all 2-operator / unary / parenthesised / MIN / MAX / ALIGN combinations over a small literal pool; thorough: larger pools and 3 operators), proves on each that the per-level parser with the C table yields the declarative C parse, and exports the specified value; each expression is evaluated by the real wild (ASSERT pass/fail of real links) and by GNU ld 2.40; the spec must agree with GNU ld on every expression and wild must agree on every expression it accepts.",
+    "level_text": "TLC enumerates all well-formed expressions up to the configured bounds (quick: all 1-operator expressions over 13 boundary literals x 16 operators (thorough: 18, incl. % and ^), all 2-operator / unary / parenthesised / MIN / MAX / ALIGN combinations over a small literal pool; thorough: larger pools and 3 operators), proves on each that the per-level parser with the C table yields the declarative C parse, and exports the specified value; each expression is evaluated by the real wild (ASSERT pass/fail of real links) and by GNU ld 2.40; the spec must agree with GNU ld on every expression and wild must agree on every expression it accepts.",
     "level_note": "Exhaustive only up to the bounds (token strings of <= 3 operators, the literal pools); location counter, symbols, SIZEOF/ADDR and MEMORY functions are not in the expression language of the model; ASSERTs are evaluated at top level of a -T script (dot = 0). Most-negative / -1 (SIGFPE in GNU ld) and division by zero (fatal in GNU ld) are outside the value domain. Trusted base: TLC, GNU ld 2.40 as reference, the ASSERT message protocol.",
     "engine": "tlc",
 }
